@@ -296,6 +296,68 @@ def run_l1(tag, fam, seed, total, start=0):
     return dict(summary=summary, mismatches=mismatches, failed=failed, family=fam, seed=seed, start=start, total=total)
 
 
+def _mismatch_key(x):
+    """what kind of disagreement a mismatch record is: its kind and the trait of the segment it sits in"""
+    lab = re.sub(r'^e\d+:', '', x.get('label', '')).split('#')[0]
+    return (x['kind'], lab)
+
+
+def run_l1_shrink_step(tag, fam, seed, idx, path, with_candidates=True):
+    """model and implementation on the case reached by `path` and (optionally) on its one-step reductions"""
+    os.makedirs(f'{WORK}/l1', exist_ok=True)
+    out = f'{WORK}/l1/{tag}.shrink.jsonl'
+    mode = 'shrink' if with_candidates else 'shrunk'
+    cmd = f'{DRV} {mode} {fam} {seed} {idx} {path} | {XCHECK} l1 - {out}'
+    r = subprocess.run(cmd, shell=True, capture_output=True, text=True, env=ENV)
+    if r.returncode != 0:
+        return None
+    res = {}
+    for line in open(out):
+        line = line.strip()
+        if line:
+            d = json.loads(line)
+            if not d.get('summary'):
+                res[d['id']] = d
+    os.remove(out)
+    return res
+
+
+def shrink_l1(tag, m, label_re, kinds=None, max_steps=80):
+    """Greedy shrinking of an L1 disagreement: repeatedly move to the first one-step reduction of the case (drop a field,
+    a variant, an attribute, an argument, a listed trait, a parameter, ...: lean/DeriveExModel/Shrink.lean) on which model
+    and implementation still disagree in the same way (same kind of mismatch in a segment of the same trait).
+    Returns the minimal disagreeing case (its id ends in @<path>) or None."""
+    parts = m['id'].split('/')
+    if len(parts) != 3 or '@' in parts[2] or parts[0] in ('meta15', 'metaDump'):
+        return None
+    fam, seed, idx = parts
+
+    def rel(mm):
+        r = relevant(mm, label_re)
+        return [x for x in r if not kinds or x['kind'] in kinds]
+    want = {_mismatch_key(x) for x in rel(m)}
+    if not want:
+        return None
+    path = '-'
+    best = None
+    for _ in range(max_steps):
+        res = run_l1_shrink_step(tag, fam, seed, idx, path)
+        if res is None:
+            break
+        prefix = f'{fam}/{seed}/{idx}@' + ('' if path == '-' else path + '.')
+        cands = []
+        for cid, d in res.items():
+            if cid.startswith(prefix) and cid[len(prefix):].isdigit():
+                if any(_mismatch_key(x) in want for x in rel(d)):
+                    cands.append((int(cid[len(prefix):]), d))
+        if not cands:
+            break
+        k, d = min(cands, key=lambda t: t[0])
+        path = str(k) if path == '-' else f'{path}.{k}'
+        best = d
+    return best
+
+
 def family_count(fam):
     r = sh([DRV, 'count', fam])
     t = r.stdout.strip()
